@@ -27,7 +27,7 @@ From GoBT Require Import lib.Bytes lib.VarInt model.Tx gen.Consts spec.FeeSpec m
   spec.DigestSpec model.SigHash model.SigHashWire proofs.SigHashProofs proofs.FeesProofs
   spec.OrdSpec model.Ord proofs.OrdProofs.
 From GoBT Require model.Push model.Inscription proofs.InscriptionProofs proofs.RangeProofs spec.PushSpec.
-From GoBT Require model.Interp model.CheckSig proofs.P2PKHProofs proofs.OrdAcceptProofs.
+From GoBT Require lib.Ripemd160 model.ScriptNum model.Interp model.CheckSig proofs.P2PKHProofs proofs.OrdAcceptProofs.
 Import ListNotations.
 Local Open Scope N_scope. Local Open Scope bool_scope.
 
@@ -256,7 +256,7 @@ Print Assumptions C20_estimate_to_final.
 
 (** * Interpreter acceptance of the seller's re-indexed input (clause 1, partial — see the header) *)
 Section Acceptance.
-Import Interp CheckSig P2PKHProofs.
+Import Ripemd160 ScriptNum Interp CheckSig P2PKHProofs.
 Local Open Scope Z_scope.
 
 Theorem C20_listing_seller_input_accepted_partial : forall signer (orc : sig_oracle) listed L us buyer dummy chg q A
